@@ -726,7 +726,13 @@ def counting_variant(b, lp):
         for st in bl[n]["s"]:
             if st[0] == "a" and st[2][0] == "bin" and st[2][1] == "AddWithOverflow" and st[2][3][0] == "k" and st[2][3][1].get("v", 0) >= 1:
                 if st[2][2][0] in ("c", "m"):
-                    incs.add(st[2][2][1][0])
+                    # counts only when every way round the loop passes this increment (a `continue` may skip it)
+                    x = st[2][2][1][0]
+                    blocks_x = {n2 for n2 in nodes for s2 in bl[n2]["s"] if s2[0] == "a" and s2[2][0] == "bin" and
+                                s2[2][1] == "AddWithOverflow" and s2[2][2][0] in ("c", "m") and s2[2][2][1][0] == x and
+                                s2[2][3][0] == "k" and s2[2][3][1].get("v", 0) >= 1}
+                    if C10.on_every_cycle(b, lp, blocks_x):
+                        incs.add(x)
     for n in nodes:
         for st in bl[n]["s"]:
             if st[0] == "a" and st[2][0] == "bin" and st[2][1] in ("Lt", "Le", "Ne") and st[2][2][0] in ("c", "m"):
